@@ -84,34 +84,79 @@ Section STEP2.
     Lemma ev_now_op r e : ev_op progs (ev_now th r e) = Some (OCore c).
     Proof. unfold ev_op, ev_now. simpl. apply (uc_op _ _ _ _ _ UC). Qed.
 
+    Lemma uc_fresh : fresh progs t th (s_trace st).
+    Proof. apply (g_fresh _ _ _ _ _ _ uc_good). Qed.
+
+    Lemma src_ok_lt tr t' e' src : src_ok progs tr t' e' src -> (src < length tr)%nat.
+    Proof. intros (ev & Hn & _). rewrite <- rev_length. apply nth_error_Some. congruence. Qed.
+
+    Lemma clearing_now r e : clearing progs (ev_now th r e) -> th_k th = [1] /\ r = -1.
+    Proof. intros (_ & A & B). simpl in *. auto. Qed.
+    Lemma reports_now r e : reports progs (ev_now th r e) ->
+      (r = -1 /\ th_k th <> [3] /\ exists d, c = OUsleep d) \/ (c = OYield /\ r <> 0) \/
+      ((exists j, c = OYieldTo j) /\ th_k th = [1] /\ r <> 0).
+    Proof.
+      pose proof (uc_op _ _ _ _ _ UC) as Hop. fold th in Hop.
+      intros [((d & Hd) & A & B)|[(Hd & A)|((j & Hd) & A & B)]]; unfold ev_op, ev_now in Hd; simpl in *;
+        unfold cur_op in Hop; rewrite Hop in Hd; injection Hd as ->.
+      - left. eauto.
+      - right; left. auto.
+      - right; right. eauto.
+    Qed.
+
     Lemma aret_ctx r e :
-      EvOK (ev_now th r e :: s_trace st) (ev_now th r e) ->
       (th_err th <> 0 -> ~ ((exists j, c = OJoin j) /\ th_k th = [1])) ->
+      ~ clearing progs (ev_now th r e) ->
+      (reports progs (ev_now th r e) -> th_err th <> 0) ->
+      EvOK (ev_now th r e :: s_trace st) (ev_now th r e) ->
       GI (apply_action st t (ARet r e) true) /\ TI (apply_action st t (ARet r e) true).
     Proof.
-      intros Hev Hnj. apply aret_inv.
-      - apply GIw_mono. exact uc_gw.
+      intros Hnj Hnc Hrep Hev. apply aret_inv.
+      - apply GIw_mono; [exact uc_gw|reflexivity].
       - apply (uc_ti _ _ _ _ _ UC).
       - exact Hev.
       - intros X. apply src_ok_mono. apply uc_src; auto.
+      - apply fresh_mono; [exact uc_fresh|intros _; exact Hnc].
+      - intros Hr e1 Hin Ht Hc. destruct (uc_fresh e1 Hin Ht Hc) as (_ & X). apply X. apply Hrep. exact Hr.
     Qed.
 
-    (* the same after set_error_number has cleared the error_number *)
+    (* the same after set_error_number has cleared a non-zero error_number *)
     Lemma aret_ctx_clear r e :
       let st1 := modth st t (fun x => set_terr x 0) in
+      th_err th <> 0 -> ~ ((exists j, c = OJoin j) /\ th_k th = [1]) ->
       EvOK (ev_now th r e :: s_trace st) (ev_now th r e) ->
       GI (apply_action st1 t (ARet r e) true) /\ TI (apply_action st1 t (ARet r e) true).
     Proof.
-      intros st1 Hev.
+      intros st1 Herr Hnj Hev.
       assert (E1 : getth st1 t = set_terr th 0) by (apply getth_modth_same; exact uc_range).
       assert (G1 : GIw st1 t (s_trace st)).
       { apply GIw_modth; [exact uc_gw|intros x; repeat split; reflexivity|intros x; right; reflexivity]. }
+      pose proof (src_ok_lt _ _ _ _ (uc_src Hnj Herr)) as Hlt.
       pose proof (aret_inv progs st1 t r e) as A. cbv zeta in A. rewrite E1 in A. thsimpl.
       apply A.
-      - apply GIw_mono. exact G1.
+      - apply GIw_mono; [exact G1|reflexivity].
       - apply (uc_ti _ _ _ _ _ UC).
       - exact Hev.
       - intros X. exfalso. apply X. reflexivity.
+      - intros e1 [<-|Hin] Ht Hc.
+        + split; [simpl; lia|]. thsimpl. intros X. exfalso. apply X; reflexivity.
+        + destruct (uc_fresh e1 Hin Ht Hc) as (X & _). split; [simpl; lia|]. thsimpl. intros Y. exfalso. apply Y; reflexivity.
+      - intros _ e1 Hin Ht Hc. destruct (uc_fresh e1 Hin Ht Hc) as (_ & X). apply X. exact Herr.
+    Qed.
+
+    Lemma plain_not_clearing_now r e : (forall d, c <> OUsleep d) -> ~ clearing progs (ev_now th r e).
+    Proof. intros H. eapply not_clearing_op; [apply ev_now_op|exact H]. Qed.
+    Lemma plain_not_reports_now r e : plain_op c -> ~ reports progs (ev_now th r e).
+    Proof. intros H. eapply not_reports_op; [apply ev_now_op|exact H]. Qed.
+
+    Lemma aret_ctx_plain r e :
+      plain_op c -> (th_err th <> 0 -> ~ ((exists j, c = OJoin j) /\ th_k th = [1])) ->
+      EvOK (ev_now th r e :: s_trace st) (ev_now th r e) ->
+      GI (apply_action st t (ARet r e) true) /\ TI (apply_action st t (ARet r e) true).
+    Proof.
+      intros Hp Hnj Hev. apply aret_ctx; auto.
+      - apply plain_not_clearing_now. apply plain_not_usleep; exact Hp.
+      - intros X. exfalso. eapply plain_not_reports_now; eauto.
     Qed.
 
     Lemma EvOK_plain_now r e th' : plain_op c -> th_pc th' = th_pc th -> 0 <= th_issued th' <= s_now st ->
@@ -192,7 +237,9 @@ Section STEP2.
       unfold set_error_number. fold th.
       destruct (th_err th =? 0) eqn:Ee.
       + apply Z.eqb_eq in Ee. destruct S5' as [X|X]; [contradiction|].
-        apply (aret_ctx _ _ _ _ _ UC); [|intros _; exact Hnj].
+        apply (aret_ctx _ _ _ _ _ UC); [intros _; exact Hnj
+          |intros Y; apply clearing_now in Y; destruct Y as (_ & Y); discriminate
+          |intros Y; apply (reports_now _ _ _ _ _ UC) in Y; destruct Y as [(Y & _)|[(Y & _)|((j & Y) & _)]]; discriminate|].
         split; [simpl; apply (g_issued _ _ _ _ _ _ GT)|]. split.
         * intros d' Hd'. rewrite (ev_now_op _ _ _ _ _ UC) in Hd'. injection Hd' as <-. cbv zeta. simpl. fold th. rewrite Hk.
           split; [left; reflexivity|]. split; [|split; intros Y; discriminate].
@@ -200,7 +247,7 @@ Section STEP2.
           unfold usleep_exp in S3. lia.
         * intros [Y|(j & Y & _)]; rewrite (ev_now_op _ _ _ _ _ UC) in Y; discriminate.
       + apply Z.eqb_neq in Ee.
-        apply (aret_ctx_clear _ _ _ _ _ UC).
+        apply (aret_ctx_clear _ _ _ _ _ UC); [exact Ee|exact Hnj|].
         split; [simpl; apply (g_issued _ _ _ _ _ _ GT)|]. split.
         * intros d' Hd'. rewrite (ev_now_op _ _ _ _ _ UC) in Hd'. injection Hd' as <-. cbv zeta. simpl. fold th. rewrite Hk.
           split; [left; reflexivity|]. split; [|split; intros Y; discriminate].
@@ -212,13 +259,17 @@ Section STEP2.
       destruct (C2 Hk) as (S1 & S2).
       unfold ret_after_yield. fold th.
       destruct (th_err th =? 0) eqn:Ee; [apply Z.eqb_eq in Ee|apply Z.eqb_neq in Ee].
-      + apply (aret_ctx _ _ _ _ _ UC); [|intros _; exact Hnj].
+      + apply (aret_ctx _ _ _ _ _ UC); [intros _; exact Hnj
+          |intros Y; apply clearing_now in Y; destruct Y as (_ & Y); discriminate
+          |intros Y; apply (reports_now _ _ _ _ _ UC) in Y; destruct Y as [(Y & _)|[(Y & _)|((j & Y) & _)]]; discriminate|].
         split; [simpl; apply (g_issued _ _ _ _ _ _ GT)|]. split.
         * intros d' Hd'. rewrite (ev_now_op _ _ _ _ _ UC) in Hd'. injection Hd' as <-. cbv zeta. simpl. fold th. rewrite Hk.
           split; [right; left; reflexivity|]. split; [intros Y; discriminate|]. split; [|intros Y; discriminate].
           intros _. split; [exact S1|]. left. split; reflexivity.
         * intros [Y|(j & Y & _)]; rewrite (ev_now_op _ _ _ _ _ UC) in Y; discriminate.
-      + apply (aret_ctx _ _ _ _ _ UC); [|intros _; exact Hnj].
+      + apply (aret_ctx _ _ _ _ _ UC); [intros _; exact Hnj
+          |intros Y; apply clearing_now in Y; destruct Y as (Y & _); fold th in Y; rewrite Hk in Y; discriminate
+          |intros _; exact Ee|].
         split; [simpl; apply (g_issued _ _ _ _ _ _ GT)|]. split.
         * intros d' Hd'. rewrite (ev_now_op _ _ _ _ _ UC) in Hd'. injection Hd' as <-. cbv zeta. simpl. fold th. rewrite Hk.
           split; [right; left; reflexivity|]. split; [intros Y; discriminate|]. split; [|intros Y; discriminate].
@@ -235,14 +286,17 @@ Section STEP2.
       unfold set_error_number. fold th.
       destruct (th_err th =? 0) eqn:Ee.
       + apply Z.eqb_eq in Ee. simpl.
-        apply (aret_ctx _ _ _ _ _ UC); [|intros _; exact Hnj].
+        apply (aret_ctx _ _ _ _ _ UC); [intros _; exact Hnj
+          |intros Y; apply clearing_now in Y; destruct Y as (Y & _); fold th in Y; rewrite Hk in Y; discriminate
+          |intros Y; apply (reports_now _ _ _ _ _ UC) in Y; destruct Y as [(_ & Y & _)|[(Y & _)|((j & Y) & _)]];
+             [fold th in Y; rewrite Hk in Y; exfalso; apply Y; reflexivity|discriminate|discriminate]|].
         split; [simpl; apply (g_issued _ _ _ _ _ _ GT)|]. split.
         * intros d' Hd'. rewrite (ev_now_op _ _ _ _ _ UC) in Hd'. injection Hd' as <-. cbv zeta. simpl. fold th. rewrite Hk.
           split; [right; right; reflexivity|]. split; [intros Y; discriminate|]. split; [intros Y; discriminate|].
           intros _. repeat split; auto.
         * intros [Y|(j & Y & _)]; rewrite (ev_now_op _ _ _ _ _ UC) in Y; discriminate.
       + apply Z.eqb_neq in Ee. simpl.
-        apply (aret_ctx_clear _ _ _ _ _ UC).
+        apply (aret_ctx_clear _ _ _ _ _ UC); [exact Ee|exact Hnj|].
         split; [simpl; apply (g_issued _ _ _ _ _ _ GT)|]. split.
         * intros d' Hd'. rewrite (ev_now_op _ _ _ _ _ UC) in Hd'. injection Hd' as <-. cbv zeta. simpl. fold th. rewrite Hk.
           split; [right; right; reflexivity|]. split; [intros Y; discriminate|]. split; [intros Y; discriminate|].
@@ -330,9 +384,10 @@ Section STEP2.
   Lemma GoodT_clear_err t th now clock tr :
     GoodT t th now clock tr -> (forall d, cur_op t th <> Some (OCore (OUsleep d))) -> GoodT t (set_terr th 0) now clock tr.
   Proof.
-    intros [A B C D E F G] H. constructor; thsimpl; [exact A|exact B| | |exact E|exact F|exact G].
+    intros [A B C D E F G H0] H. constructor; thsimpl; [exact A|exact B| | |exact E|exact F|exact G| ].
     - intros d Hd. exfalso. apply (H d). exact Hd.
     - intros X. exfalso. apply X. reflexivity.
+    - eapply fresh_zero; [exact H0|reflexivity].
   Qed.
 
   (* ---- yield ----------------------------------------------------------------------------------------- *)
@@ -362,8 +417,10 @@ Section STEP2.
       + intros _. rewrite (uc_op _ _ _ _ _ UC). discriminate.
     - destruct (list_eq_dec Z.eq_dec (th_k (getth st t)) [1]) as [Hk|Hk1].
       + apply (aret_ctx _ _ _ _ _ UC).
-        * apply (ret_errno_event _ _ _ _ _ UC); [intros d; discriminate|intros (j & X); discriminate].
         * intros _ ((j & X) & _). discriminate.
+        * apply (plain_not_clearing_now _ _ _ _ _ UC). intros d; discriminate.
+        * intros Y. apply (reports_now _ _ _ _ _ UC) in Y. destruct Y as [(_ & _ & (d & Y))|[(_ & Y)|((j & Y) & _)]]; try discriminate. exact Y.
+        * apply (ret_errno_event _ _ _ _ _ UC); [intros d; discriminate|intros (j & X); discriminate].
       + apply GI_TI_stuck; [apply (uc_gi _ _ _ _ _ UC)|apply (uc_ti _ _ _ _ _ UC)].
   Qed.
 
@@ -372,9 +429,9 @@ Section STEP2.
     UCtx st t to rest c -> plain_op c -> th_k (getth st t) <> [1] ->
     GI (apply_action st t (ARet r e) true) /\ TI (apply_action st t (ARet r e) true).
   Proof.
-    intros UC Hp Hk. apply (aret_ctx _ _ _ _ _ UC).
-    - apply (EvOK_plain_now _ _ _ _ _ UC); auto. apply (g_issued _ _ _ _ _ _ (uc_good _ _ _ _ _ UC)).
+    intros UC Hp Hk. apply (aret_ctx_plain _ _ _ _ _ UC); auto.
     - intros _ (_ & X). auto.
+    - apply (EvOK_plain_now _ _ _ _ _ UC); auto. apply (g_issued _ _ _ _ _ _ (uc_good _ _ _ _ _ UC)).
   Qed.
 
   Lemma alive_lt (st : cstate) j : GI st -> alive st j = true -> (j < length progs)%nat.
@@ -405,12 +462,17 @@ Section STEP2.
     - assert (Hk1 : th_k (getth st t) <> [1]) by (rewrite Hk; discriminate).
       assert (Hnj : th_err (getth st t) <> 0 -> ~ ((exists j0, OYieldTo j = OJoin j0) /\ th_k (getth st t) = [1]))
         by (intros _ ((j0 & X) & _); discriminate).
+      assert (ARET : forall r e, GI (apply_action st t (ARet r e) true) /\ TI (apply_action st t (ARet r e) true)).
+      { intros r e. apply (aret_ctx _ _ _ _ _ UC).
+        - exact Hnj.
+        - apply (plain_not_clearing_now _ _ _ _ _ UC). intros d; discriminate.
+        - intros Y. apply (reports_now _ _ _ _ _ UC) in Y.
+          destruct Y as [(_ & _ & (d & Y))|[(Y & _)|(_ & Y & _)]]; try discriminate. contradiction.
+        - apply (yieldto_k0_event _ _ _ _ _ _ _ UC); auto. }
       destruct (alive st j) eqn:Eal; cbn [negb].
       + destruct (Nat.eqb_spec j t) as [->|Hjt].
-        * rewrite (update_now_sync st (uc_sync _ _ _ _ _ UC)).
-          apply (aret_ctx _ _ _ _ _ UC); auto. apply (yieldto_k0_event _ _ _ _ _ _ _ UC); auto.
-        * destruct (th_state (getth st j)) eqn:Es;
-            try (apply (aret_ctx _ _ _ _ _ UC); [apply (yieldto_k0_event _ _ _ _ _ _ _ UC); auto|auto]; fail).
+        * rewrite (update_now_sync st (uc_sync _ _ _ _ _ UC)). apply ARET.
+        * destruct (th_state (getth st j)) eqn:Es; try (apply ARET; fail).
           -- (* READY *)
              rewrite (uc_runq _ _ _ _ _ UC).
              assert (HG : GoodT t (yield_record (getth st t) [1]) (s_now st) (s_clock st) (s_trace st)).
@@ -423,15 +485,18 @@ Section STEP2.
              ++ eapply case_yield_to; [apply (uc_gw _ _ _ _ _ UC)|apply (uc_ti _ _ _ _ _ UC)|apply (uc_runq _ _ _ _ _ UC)|apply (uc_nid _ _ _ _ _ UC)|exact Hjt|exact Es|exact HG].
           -- (* STANDBY: cross-vCPU only *)
              apply GI_TI_stuck; [apply (uc_gi _ _ _ _ _ UC)|apply (uc_ti _ _ _ _ _ UC)].
-      + apply (aret_ctx _ _ _ _ _ UC); auto. apply (yieldto_k0_event _ _ _ _ _ _ _ UC); auto.
+      + apply ARET.
     - destruct (list_eq_dec Z.eq_dec (th_k (getth st t)) [1]) as [Hk|Hk1].
       + apply (aret_ctx _ _ _ _ _ UC).
+        * intros _ ((j0 & X) & _). discriminate.
+        * apply (plain_not_clearing_now _ _ _ _ _ UC). intros d; discriminate.
+        * intros Y. apply (reports_now _ _ _ _ _ UC) in Y.
+          destruct Y as [(_ & _ & (d & Y))|[(Y & _)|(_ & _ & Y)]]; try discriminate. exact Y.
         * apply EvOK_yieldlike.
           -- intros d. rewrite (ev_now_op _ _ _ _ _ UC). discriminate.
           -- simpl. apply (g_issued _ _ _ _ _ _ (uc_good _ _ _ _ _ UC)).
           -- intros _. simpl. destruct (Z.eq_dec (th_err (getth st t)) 0) as [X|X]; [left; exact X|right].
              apply src_ok_mono. apply (uc_src _ _ _ _ _ UC); auto. intros ((j0 & Y) & _). discriminate.
-        * intros _ ((j0 & X) & _). discriminate.
       + apply GI_TI_stuck; [apply (uc_gi _ _ _ _ _ UC)|apply (uc_ti _ _ _ _ _ UC)].
   Qed.
 
@@ -453,9 +518,9 @@ Section STEP2.
       + apply (uc_op _ _ _ _ _ UC).
       + apply (alive_lt st j (uc_gi _ _ _ _ _ UC) Eal).
       + apply (uc_src_plain _ _ _ _ _ UC). intros (j0 & X); discriminate.
-    - apply (aret_ctx _ _ _ _ _ UC).
-      + apply (EvOK_plain_now _ _ _ _ _ UC); [exact I|reflexivity|apply (g_issued _ _ _ _ _ _ (uc_good _ _ _ _ _ UC))].
-      + intros _ ((j0 & X) & _); discriminate.
+      + apply (uc_fresh _ _ _ _ _ UC).
+    - apply (aret_ctx_plain _ _ _ _ _ UC); [exact I|intros _ ((j0 & X) & _); discriminate|].
+      apply (EvOK_plain_now _ _ _ _ _ UC); [exact I|reflexivity|apply (g_issued _ _ _ _ _ _ (uc_good _ _ _ _ _ UC))].
   Qed.
 
   Lemma step_shutdown st t to rest j f :
@@ -470,9 +535,9 @@ Section STEP2.
       + apply (uc_op _ _ _ _ _ UC).
       + apply (alive_lt st j (uc_gi _ _ _ _ _ UC) Eal).
       + apply (uc_src_plain _ _ _ _ _ UC). intros (j0 & X); discriminate.
-    - apply (aret_ctx _ _ _ _ _ UC).
-      + apply (EvOK_plain_now _ _ _ _ _ UC); [exact I|reflexivity|apply (g_issued _ _ _ _ _ _ (uc_good _ _ _ _ _ UC))].
-      + intros _ ((j0 & X) & _); discriminate.
+      + apply (uc_fresh _ _ _ _ _ UC).
+    - apply (aret_ctx_plain _ _ _ _ _ UC); [exact I|intros _ ((j0 & X) & _); discriminate|].
+      apply (EvOK_plain_now _ _ _ _ _ UC); [exact I|reflexivity|apply (g_issued _ _ _ _ _ _ (uc_good _ _ _ _ _ UC))].
   Qed.
 
   Lemma step_create st t to rest j jn :
@@ -490,9 +555,9 @@ Section STEP2.
       + apply (uc_op _ _ _ _ _ UC).
       + destruct (tstate_eqb_spec (th_state (getth st j)) NOTCREATED); [auto|discriminate].
       + apply (uc_src_plain _ _ _ _ _ UC). intros (j0 & X); discriminate.
-    - apply (aret_ctx _ _ _ _ _ UC).
-      + apply (EvOK_plain_now _ _ _ _ _ UC); [exact I|reflexivity|apply (g_issued _ _ _ _ _ _ (uc_good _ _ _ _ _ UC))].
-      + intros _ ((j0 & X) & _); discriminate.
+      + apply (uc_fresh _ _ _ _ _ UC).
+    - apply (aret_ctx_plain _ _ _ _ _ UC); [exact I|intros _ ((j0 & X) & _); discriminate|].
+      apply (EvOK_plain_now _ _ _ _ _ UC); [exact I|reflexivity|apply (g_issued _ _ _ _ _ _ (uc_good _ _ _ _ _ UC))].
   Qed.
 
   Lemma step_state st t to rest j :
@@ -501,9 +566,9 @@ Section STEP2.
     GI (apply_action st1 t a true) /\ TI (apply_action st1 t a true).
   Proof.
     intros UC. cbn [exec_core].
-    destruct (alive st j); (apply (aret_ctx _ _ _ _ _ UC);
-      [apply (EvOK_plain_now _ _ _ _ _ UC); [exact I|reflexivity|apply (g_issued _ _ _ _ _ _ (uc_good _ _ _ _ _ UC))]
-      |intros _ ((j0 & X) & _); discriminate]).
+    destruct (alive st j); (apply (aret_ctx_plain _ _ _ _ _ UC);
+      [exact I|intros _ ((j0 & X) & _); discriminate
+      |apply (EvOK_plain_now _ _ _ _ _ UC); [exact I|reflexivity|apply (g_issued _ _ _ _ _ _ (uc_good _ _ _ _ _ UC))]]).
   Qed.
 
   Lemma step_nop st t to rest :
@@ -511,9 +576,9 @@ Section STEP2.
     let '(st1, a) := exec_core st t ONop (th_k (getth st t)) in
     GI (apply_action st1 t a true) /\ TI (apply_action st1 t a true).
   Proof.
-    intros UC. cbn [exec_core]. apply (aret_ctx _ _ _ _ _ UC);
-      [apply (EvOK_plain_now _ _ _ _ _ UC); [exact I|reflexivity|apply (g_issued _ _ _ _ _ _ (uc_good _ _ _ _ _ UC))]
-      |intros _ ((j0 & X) & _); discriminate].
+    intros UC. cbn [exec_core]. apply (aret_ctx_plain _ _ _ _ _ UC);
+      [exact I|intros _ ((j0 & X) & _); discriminate
+      |apply (EvOK_plain_now _ _ _ _ _ UC); [exact I|reflexivity|apply (g_issued _ _ _ _ _ _ (uc_good _ _ _ _ _ UC))]].
   Qed.
 
   (* ---- join -------------------------------------------------------------------------------------------- *)
@@ -531,9 +596,9 @@ Section STEP2.
         by (apply (getth_modth_proj unit th_err); reflexivity).
       assert (Ek : th_k (getth (modth st j (fun x => set_tjoined x true)) t) = th_k (getth st t))
         by (apply (getth_modth_proj unit th_k); reflexivity).
-      apply (aret_ctx _ _ _ _ _ UC1).
-      + apply (EvOK_plain_now _ _ _ _ _ UC1); [exact I|reflexivity|apply (g_issued _ _ _ _ _ _ (uc_good _ _ _ _ _ UC1))].
+      apply (aret_ctx_plain _ _ _ _ _ UC1); [exact I| |].
       + rewrite Ee, Ek. intros He (_ & Hk). destruct Hek as [X|X]; auto.
+      + apply (EvOK_plain_now _ _ _ _ _ UC1); [exact I|reflexivity|apply (g_issued _ _ _ _ _ _ (uc_good _ _ _ _ _ UC1))].
     - eapply case_sleep; [apply (uc_gw _ _ _ _ _ UC)|apply (uc_ti _ _ _ _ _ UC)|apply (uc_runq _ _ _ _ _ UC)|apply (uc_nid _ _ _ _ _ UC)|].
       apply (GoodT_sleep_record progs t (getth st t) _ _ _ [1] (Some (QJoin j)) MAX64).
       + apply (uc_good _ _ _ _ _ UC).
@@ -561,9 +626,9 @@ Section STEP2.
           intros X. apply GoodT_set_join_claimed. exact X. }
         apply (join_check_inv _ _ _ _ _ UC1).
         right. rewrite (getth_modth_proj unit th_k) by reflexivity. rewrite Hk. discriminate.
-      + apply (aret_ctx _ _ _ _ _ UC).
-        * apply (EvOK_plain_now _ _ _ _ _ UC); [exact I|reflexivity|apply (g_issued _ _ _ _ _ _ (uc_good _ _ _ _ _ UC))].
+      + apply (aret_ctx_plain _ _ _ _ _ UC); [exact I| |].
         * intros _ (_ & X). rewrite Hk in X. discriminate.
+        * apply (EvOK_plain_now _ _ _ _ _ UC); [exact I|reflexivity|apply (g_issued _ _ _ _ _ _ (uc_good _ _ _ _ _ UC))].
     - destruct (list_eq_dec Z.eq_dec (th_k (getth st t)) [1]) as [Hk|Hk1].
       + (* woken inside thread_join: the error_number is consumed, the target's state re-checked *)
         unfold set_error_number.
@@ -600,7 +665,7 @@ Section STEP2.
     GoodT t th now clock tr -> th_waitq th = None ->
     (th_err th <> 0 -> src_ok progs tr t (th_err th) (th_esrc th)) -> GoodT t (set_tk th []) now clock tr.
   Proof.
-    intros [A B C D E F G] Hw Hs. constructor; thsimpl; [exact A|exact B| | | | |].
+    intros [A B C D E F G H] Hw Hs. constructor; thsimpl; [exact A|exact B| | | | | |exact H].
     - intros d _. split; [left; reflexivity|]. split; [intros X; discriminate|split; intros X; discriminate].
     - intros X. left. apply Hs. exact X.
     - intros q Hq. congruence.
@@ -643,8 +708,7 @@ Section STEP2.
       split.
       - apply GI_modth; auto; [intros x; repeat split; reflexivity|].
         intros X. apply GoodT_set_k_nil; auto.
-      - intros ev Hev. change (s_trace (modth st1 0%nat (fun x => set_tk x []))) with (s_trace st1) in *.
-        rewrite Tr1 in *. apply T. exact Hev. }
+      - apply (TI_same _ st); [exact T|exact Tr1]. }
     cbn [exec_core]. rewrite (kmatch4 (th_k th)).
     destruct (list_eq_dec Z.eq_dec (th_k th) []) as [Hk|Hk0].
     - destruct (expired (s_now st) (timeout_of (s_now st) MAX64)) eqn:Eexp.
